@@ -96,31 +96,13 @@ Fixpoint adjacent_distinct (l : list Z) : bool :=
 Definition ids_ok (hdrs : list (list Z)) : bool :=
   adjacent_distinct (map ip4_id (filter (fun h => 68 <? ip4_total h) hdrs)).
 
-(* FindRoute: the first table entry (in order) whose NIC filter and (destination & mask) match and
-   whose NIC has a usable address decides; no such entry = ErrNoRoute *)
-Definition mask_match (e : rentry) (a : list Z) : bool :=
-  Nat.eqb (length a) (length (reDst e)) &&
-  forallb (fun t => Z.land (fst (fst t)) (snd (fst t)) =? snd t) (combine (combine a (reMask e)) (reDst e)).
-Definition usable_addr (nics : list nicinfo) (nic : Z) (laddr : list Z) : option (list Z) :=
-  match find (fun n => nId n =? nic) nics with
-  | None => None
-  | Some n =>
-      match laddr with
-      | [] => find (fun a => negb (leq a [255; 255; 255; 255]) && negb (leq a [0; 0; 0; 0])) (nAddrs n)
-      | _ => if existsb (leq laddr) (nAddrs n) then Some laddr else None
-      end
-  end.
-Definition is_some {A} (o : option A) : bool := match o with Some _ => true | None => false end.
-Definition candidates (table : list rentry) (nics : list nicinfo) (nicid : Z) (laddr raddr : list Z) : list rentry :=
-  filter (fun e => ((nicid =? 0) || (nicid =? reNic e)) &&
-                   (match raddr with [] => true | _ => mask_match e raddr end) &&
-                   is_some (usable_addr nics (reNic e) laddr)) table.
+(* FindRoute: the answer of Model/Rfc.v [first_match] (first eligible table entry, in order) *)
+Definition to_rt (e : rentry) : rt_entry := (reDst e, reMask e, reGw e, reNic e).
+Definition to_if (n : nicinfo) : rt_iface := (nId n, nAddrs n).
 Definition route_ok (table : list rentry) (nics : list nicinfo) (nicid : Z) (laddr raddr : list Z) (res : rres) : bool :=
-  match candidates table nics nicid laddr raddr, res with
-  | [], NoRoute => true
-  | e :: _, Found nic local nh =>
-      (nic =? reNic e) && leq nh (reGw e) &&
-      match usable_addr nics (reNic e) laddr with Some a => leq a local | None => false end
+  match first_match (map to_rt table) (map to_if nics) nicid laddr raddr, res with
+  | None, NoRoute => true
+  | Some (n, a, g), Found nic local nh => (nic =? n) && leq a local && leq g nh
   | _, _ => false
   end.
 
